@@ -198,6 +198,81 @@ theorem die_unexpected_term (o : Opts) {path : Path} {put : Container → Cif} {
   simp only [bind_eq, pure_eq, P.bind, P.pure, hn, ht, if_true, report_die CIF_UNEXPECTED_TERM _ _ w (by decide)]
   simp [hw]
 
+/-! ### the defect at any depth of nesting -/
+
+/-- one level of the nesting context in front of the defect: the elements in front of the frame that is open, and its code -/
+structure DLevel where
+  pre : List Elem
+  fc : Str
+
+def dieToks : List DLevel → List TokSpec → List TokSpec
+  | [], T => T
+  | L :: r, T => elemsToks L.pre ++ ((.frameHead, L.fc) :: dieToks r T)
+
+def dieInner : List DLevel → Str
+  | [] => []
+  | [L] => L.fc
+  | _ :: L2 :: r => dieInner (L2 :: r)
+
+/-- what the outermost container holds when the parse is aborted: at every level the elements in front and the open frame -/
+def dieRes (o : Opts) : List DLevel → List Container × List Loop → List Container × List Loop → List Container × List Loop
+  | [], _, inner => inner
+  | L :: r, start, inner =>
+    ((denoteElems o.dia o.normKey L.pre start.1 start.2).1 ++ [.mk L.fc (dieRes o r ([], []) inner).1 (dieRes o r ([], []) inner).2],
+     (denoteElems o.dia o.normKey L.pre start.1 start.2).2)
+
+def DieOk (o : Opts) : List DLevel → List Container × List Loop → Prop
+  | [], _ => True
+  | L :: r, start =>
+    wfElems o L.pre (normNames o start.2) (start.1.map fun c => o.norm c.code) = true
+    ∧ wfCode L.fc = true
+    ∧ (∀ c ∈ (denoteElems o.dia o.normKey L.pre start.1 start.2).1, codeIs o.norm (o.norm L.fc) c = false)
+    ∧ DieOk o r ([], [])
+
+def dieJ : List DLevel → Nat → Nat
+  | [], j => j
+  | L :: r, j => (elemsToks L.pre).length + (1 + dieJ r j)
+
+def dieNeed : List DLevel → Nat → Nat
+  | [], need => need
+  | L :: r, need => szElems L.pre + L.pre.length + (dieNeed r need + 2)
+
+/-- **the abort at any depth**: the element loop of the innermost open frame aborts ⇒ so does that of the outermost container; every
+    frame of the context exists, with what had been stored in it -/
+theorem DieSeg.nest (o : Opts) (hmfd : o.maxFrameDepth ≠ 0) (T : List TokSpec) (fsb : List Container) (lsb : List Loop)
+    (C : Code) (j need : Nat) (follow : List TokSpec → Prop) :
+    ∀ (ctx : List DLevel), ctx ≠ [] → ∀ {path : Path} {put : Container → Cif} {code : Str} (_hv : View o path put code) (isBlock : Bool)
+      (fs : List Container) (ls : List Loop),
+      (isBlock = true ∨ o.maxFrameDepth ≠ 1) → (ctx.length ≤ 1 ∨ o.maxFrameDepth ≠ 1) → DieOk o ctx (fs, ls) →
+      (∀ {path' : Path} {put' : Container → Cif}, View o path' put' (dieInner ctx) →
+        DieSeg o path' put' (dieInner ctx) false T [] [] fsb lsb C j need follow) →
+      DieSeg o path put code isBlock (dieToks ctx T) fs ls (dieRes o ctx (fs, ls) (fsb, lsb)).1 (dieRes o ctx (fs, ls) (fsb, lsb)).2
+        C (dieJ ctx j) (dieNeed ctx need) follow
+  | [], h, _, _, _, _, _, _, _, _, _, _, _ => absurd rfl h
+  | [L], _, path, put, code, hv, isBlock, fs, ls, hlvl, _, hok, hbody => by
+    obtain ⟨h1, h2, h3, _⟩ := hok
+    have hl3 : isBlock = true ∨ noFrames L.pre = true ∨ o.maxFrameDepth ≠ 1 := by
+      rcases hlvl with h | h
+      · exact Or.inl h
+      · exact Or.inr (Or.inr h)
+    exact DieSeg.after_elems o hmfd hv isBlock L.pre _ _ fs ls hl3 h1 (fun _ h => h) (fun c hc => List.mem_map.mpr ⟨c, hc, rfl⟩)
+      (fun rest _ => ⟨_, _, _, rfl, rfl⟩)
+      (DieSeg.frame o hmfd hv isBlock L.fc _ _ T fsb lsb C j need follow hlvl h2 h3
+        (hbody (hv.child (denoteElems o.dia o.normKey L.pre fs ls).1 (denoteElems o.dia o.normKey L.pre fs ls).2 L.fc h3)))
+  | L :: L2 :: r, _, path, put, code, hv, isBlock, fs, ls, hlvl, hdeep, hok, hbody => by
+    obtain ⟨h1, h2, h3, hrest⟩ := hok
+    have hd : o.maxFrameDepth ≠ 1 := by
+      rcases hdeep with h | h
+      · simp at h
+      · exact h
+    have hl3 : isBlock = true ∨ noFrames L.pre = true ∨ o.maxFrameDepth ≠ 1 := Or.inr (Or.inr hd)
+    have ih := DieSeg.nest o hmfd T fsb lsb C j need follow (L2 :: r) (by simp)
+      (hv.child (denoteElems o.dia o.normKey L.pre fs ls).1 (denoteElems o.dia o.normKey L.pre fs ls).2 L.fc h3) false [] []
+      (Or.inr hd) (Or.inr hd) hrest (fun hv' => hbody hv')
+    exact DieSeg.after_elems o hmfd hv isBlock L.pre _ _ fs ls hl3 h1 (fun _ h => h) (fun c hc => List.mem_map.mpr ⟨c, hc, rfl⟩)
+      (fun rest _ => ⟨_, _, _, rfl, rfl⟩)
+      (DieSeg.frame o hmfd hv isBlock L.fc _ _ (dieToks (L2 :: r) T) _ _ C _ _ follow hlvl h2 h3 ih)
+
 end CifModel.Model.Parser
 
 
